@@ -91,7 +91,7 @@ theorem dpub_equiv_tcp (conf : Conf) (hc : HConf) (hl : Linked conf hc) (s : Con
 
 /-- Binary `/mpub` ≡ `MPUB` of the same batch (same parser, same limits): accepted together,
 rejected together, identical queues. Hypothesis: the length is declared, or the chunked body is
-within max-body-size (otherwise: finding F10 below). -/
+within max-body-size (beyond it HTTP reads only the first max-body-size bytes, section 4). -/
 theorem mpub_binary_equiv_tcp (conf : Conf) (hc : HConf) (hl : Linked conf hc) (s : ConnState) (b : Broker)
     (rq : Request) (kv : List (Bytes × Bytes)) (cmd t : Bytes) (tl : List Bytes)
     (hq : parseQuery rq.rawQuery = some kv) (ht : qget kv kTopic = some t) (hbin : binaryMode kv = true)
@@ -151,29 +151,42 @@ example : (handle Examples.hconf true Examples.broker2
     [{ name := ascii "a", paused := true, count := 1, msgs := [⟨[1], 0⟩], chans := [] },
      { name := ascii "b", paused := false, count := 0, msgs := [], chans := [] }] := by decide
 
-/-! ## 4. Finding F10, HTTP face -/
+/-! ## 4. F10 repaired, HTTP face: max-body-size bounds every accepted /mpub
 
-/-- One would like: an accepted `/mpub` never takes in more than max-body-size bytes. -/
-def mpub_body_bounded : Prop :=
-  ∀ (hc : HConf) (b : Broker) (rq : Request), (doMPUB hc b rq).1.status = .s200 →
-    (rq.body.length : Int) ≤ hc.maxBodySize
+Before `fixes/F10_mpub_body_limit.patch` a chunked binary `/mpub` handed the unlimited request body
+to `readMPUB` (witness: max-body-size 20, a 28-byte batch accepted). The body is now read through
+`io.LimitReader(req.Body, max-body-size)`. -/
 
-/-- False for a chunked binary request: the body handed to `readMPUB` is not limited. Witness:
-max-body-size 20, a 28-byte batch of two 8-byte messages. -/
-theorem mpub_body_bounded_false : ¬ mpub_body_bounded := by
-  intro h
-  have := h Examples.hconf [] ⟨ascii "POST", ascii "/mpub", ascii "topic=t&binary=true", -1,
-    Mpub.encode [[1, 2, 3, 4, 5, 6, 7, 8], [1, 2, 3, 4, 5, 6, 7, 8]]⟩ (by decide)
-  revert this
-  decide
+/-- Binary mode, declared or chunked: what an accepted request enqueues was encoded within the first
+max-body-size bytes of the body (the batch is exactly a prefix of them). -/
+theorem mpub_body_bounded (hc : HConf) (b : Broker) (rq : Request) (kv : List (Bytes × Bytes))
+    (hq : parseQuery rq.rawQuery = some kv) (hbin : binaryMode kv = true)
+    (h : (doMPUB hc b rq).1.status = .s200) :
+    ∃ t bodies r, Mpub.readMPUB hc.maxMsgSize hc.maxBodySize (rq.body.take hc.maxBodySize.toNat) = .ok bodies r ∧
+      rq.body.take hc.maxBodySize.toNat = Mpub.encode bodies ++ r ∧
+      ((Mpub.encode bodies).length : Int) ≤ hc.maxBodySize ∧
+      (doMPUB hc b rq).2 = publish b t (toMsgs bodies) :=
+  mpub_binary_bounded hc b rq kv hq hbin h
 
-/-- What holds: with a declared length, and always in text mode and for /pub, the limit is enforced. -/
-theorem mpub_body_bounded_partial (hc : HConf) (b : Broker) (rq : Request)
+/-- Text mode: an accepted body is at most max-body-size bytes long. -/
+theorem mpub_text_body_bounded (hc : HConf) (body : Bytes) (r : List Bytes) (h0 : 0 ≤ hc.maxBodySize)
+    (h : mpubText hc body = .ok r) : (body.length : Int) ≤ hc.maxBodySize :=
+  mpubText_bounded hc body r h0 h
+
+/-- A declared length above max-body-size is refused before anything is read. -/
+theorem mpub_declared_bounded (hc : HConf) (b : Broker) (rq : Request)
     (hdecl : rq.contentLength = rq.body.length) (h : (doMPUB hc b rq).1.status = .s200) :
     (rq.body.length : Int) ≤ hc.maxBodySize := by
   unfold doMPUB at h
   split at h
   · simp [resp] at h
   · omega
+
+-- the former witness (chunked, 28-byte batch under max-body-size 20) is now answered 413 BAD_MESSAGE
+example : (doMPUB Examples.hconf [] ⟨ascii "POST", ascii "/mpub", ascii "topic=t&binary=true", -1,
+    Mpub.encode [[1, 2, 3, 4, 5, 6, 7, 8], [1, 2, 3, 4, 5, 6, 7, 8]]⟩).1 = ⟨.s413, "BAD_MESSAGE"⟩ := by decide
+-- a chunked batch within the limit is accepted
+example : (doMPUB Examples.hconf [] ⟨ascii "POST", ascii "/mpub", ascii "topic=t&binary=true", -1,
+    Mpub.encode [[1, 2, 3], [4]]⟩).1.status = .s200 := by decide
 
 end Nsq.Props.C10
